@@ -20,7 +20,7 @@ set_option linter.unnecessarySeqFocus false
 
 namespace C20
 open Generated.C20 C17Num C20Jones
-open Model.C20 (M22)
+open Model.C20 (M22 V2)
 
 /-! ## translated obligations -/
 section gen
@@ -338,6 +338,180 @@ theorem wave_plates (θ : ℝ) :
   · rw [(retarder_compose uq uq c s hcs).1, hq, hh]; congr 1; simp
 
 end mueller
+
+/-! ## Jones vectors and Malus' law with the library's own constructors (Session 3) -/
+
+section vectors
+variable {K : Type} [Field K]
+
+omit [Field K] in
+theorem V2.ext' {u v : V2 K} (hx : u.x = v.x) (hy : u.y = v.y) : u = v := by
+  cases u; cases v; simp_all
+
+/-- translated obligation: `linear_pol_vector` writes `(cos φ, sin φ)` in BOTH the array and the scalar branch, converts degrees by
+`φ·π/180` before taking cos / sin, and degrees are the default unit -/
+theorem gen_linpol (pi φ c s : K) :
+    linPolArray c s = Model.C20.linPol c s ∧ linPolScalar c s = Model.C20.linPol c s ∧
+    linPolAngleFromDegrees pi φ = φ * pi / 180 ∧ linPolDegreesDefault = true := by
+  refine ⟨?_, ?_, ?_, by decide⟩
+  · apply V2.ext' <;> simp [linPolArray, Model.C20.linPol, V2.set, V2.zero]
+  · apply V2.ext' <;> simp [linPolScalar, Model.C20.linPol, V2.set, V2.zero]
+  · simp only [linPolAngleFromDegrees, ofInt_eq]; push_cast; ring
+
+/-- translated obligation: `circular_pol_vector` writes `(1, i)/√2` for 'left' (the default), `(1, -i)/√2` for 'right', and rejects
+any other handedness -/
+theorem gen_circpol (I r2 : K) (left : Bool) :
+    circPol I r2 left = Model.C20.circPol I r2 left ∧ circDefaultLeft = true ∧ circUnknownHandednessRaises = true := by
+  refine ⟨?_, by decide, by decide⟩
+  cases left <;> apply V2.ext' <;> simp [circPol, Model.C20.circPol, V2.set, V2.zero]
+
+/-- the Jones vectors the library builds have unit intensity; the two circular states are orthogonal (`r2 = √2`, `I = i`) -/
+theorem pol_vectors_unit [StarRing K] (c s I r2 : K) (h : c ^ 2 + s ^ 2 = 1) (hc : star c = c) (hs : star s = s)
+    (hI : I ^ 2 = -1) (hIs : star I = -I) (hr : r2 ^ 2 = 2) (hrs : star r2 = r2) (h2 : (2 : K) ≠ 0) :
+    (star (linPolArray c s).x * (linPolArray c s).x + star (linPolArray c s).y * (linPolArray c s).y = 1) ∧
+    (∀ left, star (circPol I r2 left).x * (circPol I r2 left).x + star (circPol I r2 left).y * (circPol I r2 left).y = 1) ∧
+    star (circPol I r2 true).x * (circPol I r2 false).x + star (circPol I r2 true).y * (circPol I r2 false).y = 0 := by
+  have hr0 : r2 ≠ 0 := by intro h0; rw [h0] at hr; simp at hr; exact h2 hr.symm
+  refine ⟨?_, ?_, ?_⟩
+  · rw [(gen_linpol 0 0 c s).1]; simp only [Model.C20.linPol, hc, hs]; linear_combination h
+  · intro left
+    rw [(gen_circpol I r2 left).1]
+    cases left <;> simp only [Model.C20.circPol, ↓reduceIte, Bool.false_eq_true, ofInt_eq, star_div₀, star_neg, hIs, hrs, Int.cast_one, star_one] <;>
+      field_simp <;> linear_combination -hI - hr
+  · rw [(gen_circpol I r2 true).1, (gen_circpol I r2 false).1]
+    simp only [Model.C20.circPol, ↓reduceIte, Bool.false_eq_true, ofInt_eq, star_div₀, star_neg, hIs, hrs, Int.cast_one, star_one]
+    field_simp; linear_combination hI
+
+/-- Malus' law with the library's own constructors: an ideal polariser at `θ` (`c s`) maps light linearly polarised at `φ`
+(`c' s'`, as `linear_pol_vector` builds it) to `(c c' + s s')·(c, s)`, transmitted intensity `(c c' + s s')²` -/
+theorem malus_pol_vector (pi c s c' s' : K) (h : c ^ 2 + s ^ 2 = 1) :
+    let out := (diattenuator (polarizerAlpha pi) c s).mulVec (linPolArray c' s')
+    out = V2.smul (c * c' + s * s') (linPolArray c s) ∧ out.x ^ 2 + out.y ^ 2 = (c * c' + s * s') ^ 2 := by
+  obtain ⟨⟨h1, h2⟩, h3, _⟩ := malus pi c s c' s' h
+  simp only [(gen_linpol 0 0 c' s').1, (gen_linpol 0 0 c s).1, Model.C20.linPol, M22.mulVec, V2.smul] at *
+  refine ⟨?_, h3⟩
+  apply V2.ext' <;> simp only [h1, h2] <;> ring
+
+/-- an ideal polariser transmits half of circularly polarised light, at every orientation and for both handednesses -/
+theorem polarizer_on_circular [StarRing K] (pi c s I r2 : K) (left : Bool) (h : c ^ 2 + s ^ 2 = 1) (hc : star c = c) (hs : star s = s)
+    (hI : I ^ 2 = -1) (hIs : star I = -I) (hr : r2 ^ 2 = 2) (hrs : star r2 = r2) (h2 : (2 : K) ≠ 0) :
+    let out := (diattenuator (polarizerAlpha pi) c s).mulVec (circPol I r2 left)
+    star out.x * out.x + star out.y * out.y = 1 / 2 := by
+  have hr0 : r2 ≠ 0 := by intro h0; rw [h0] at hr; simp at hr; exact h2 hr.symm
+  simp only [(gen_wrappers pi).2.2, diattenuator_form, (gen_circpol I r2 left).1]
+  cases left <;>
+    simp only [Model.C20.circPol, ↓reduceIte, Bool.false_eq_true, M22.mulVec, ofInt_eq, Int.cast_one, star_add, star_mul', star_div₀, star_neg, star_sub, star_pow, star_one,
+      star_zero, hc, hs, hIs, hrs] <;> field_simp <;> ring_nf
+  all_goals linear_combination (-2 * (c ^ 2 * s ^ 2 + s ^ 4)) * hI + 2 * (c ^ 2 + s ^ 2 + 1) * h - hr
+end vectors
+
+/-- Malus' law in its textbook form, with the real cosine: polariser at `θ`, input linearly polarised at `φ` as the library builds
+it: transmitted intensity `cos²(θ - φ)` -/
+theorem malus_cos_sq (θ φ : ℝ) :
+    let out := (diattenuator (polarizerAlpha Real.pi) (Real.cos θ) (Real.sin θ)).mulVec (linPolArray (Real.cos φ) (Real.sin φ))
+    out.x ^ 2 + out.y ^ 2 = Real.cos (θ - φ) ^ 2 := by
+  intro out
+  rw [(malus_pol_vector Real.pi _ _ (Real.cos φ) (Real.sin φ) (Real.cos_sq_add_sin_sq θ)).2, Real.cos_sub]
+
+/-- non-vacuity of the circular-vector hypotheses: `r2 = √2`, `I = i` over `ℂ` -/
+example : (((Real.sqrt 2 : ℝ) : ℂ)) ^ 2 = 2 ∧ star (((Real.sqrt 2 : ℝ) : ℂ)) = ((Real.sqrt 2 : ℝ) : ℂ) ∧
+    Complex.I ^ 2 = -1 ∧ star Complex.I = -Complex.I := by
+  refine ⟨?_, ?_, by simp, by simp⟩
+  · exact_mod_cast Real.sq_sqrt (by norm_num : (0 : ℝ) ≤ 2)
+  · rw [Complex.star_def, Complex.conj_ofReal]
+
+/-! ## second pass: index maps of the remaining helpers, Mueller-Stokes intertwining, rotation covariance -/
+
+section wiring2
+variable {K : Type} [Field K]
+
+/-- translated obligation: `broadcast_kron` (einsum + reshape) is the Kronecker product in NumPy's ordering, entry by entry -/
+theorem gen_kron (a b : M22 K) (r c : Nat) : kronEntry a b r c = Model.C20.kron a b r c := by
+  simp only [kronEntry, Model.C20.kron]
+
+/-- translated obligation: `apply_polarization_optic` multiplies every Jones entry by the scalar field sample -/
+theorem gen_apply_optic (f : K) (J : M22 K) : applyOptic f J = M22.smul f J := by
+  apply M22.ext' <;> simp only [applyOptic, M22.smul] <;> ring
+
+/-- a spatially uniform polarisation optic commutes with polarised propagation: for every propagator that is homogeneous
+(`prop (k x) = k prop x`; every linear propagator is), propagating `J · field` component-wise gives `J · prop field` -/
+theorem adapter_uniform_optic (prop : K → K) (h : ∀ k x, prop (k * x) = k * prop x) (f : K) (J : M22 K) :
+    Model.C20.adapter prop (applyOptic f J) = applyOptic (prop f) J := by
+  rw [gen_apply_optic, gen_apply_optic]
+  apply M22.ext' <;> simp only [Model.C20.adapter, M22.map, M22.smul] <;> rw [mul_comm f _, h, mul_comm]
+
+end wiring2
+
+/-- second-pass structural facts: every component call of the adapter forwards the remaining positional and keyword arguments and
+the result container appends `(2, 2)` to a component result; `add_jones_propagation` replaces exactly the listed functions by their
+adapted versions, the default list being `supported_propagation_funcs` -/
+theorem gen_structure2 : adapterForwardsArgumentsAndShape = true ∧ addJonesWrapsEachListedFunctionInPlace = true := by decide
+
+section mueller2
+open C20Mueller Matrix Kronecker Complex
+
+/-- the generated Kronecker index map IS Mathlib's Kronecker product under the column convention `(j, k) ↦ 2 j + k` used by the
+Mueller theorems -/
+theorem kron_eq_kronecker (A B : M22 ℂ) (i j k l : Fin 2) :
+    kronEntry A B (2 * i.val + k.val) (2 * j.val + l.val) = (toMat A ⊗ₖ toMat B) (i, k) (j, l) := by
+  rw [gen_kron]
+  fin_cases i <;> fin_cases j <;> fin_cases k <;> fin_cases l <;>
+    simp [Model.C20.kron, M22.get, toMat, Matrix.kroneckerMap_apply]
+
+/-- Mueller-side rotation covariance of every element: `M(R(-θ) J R(θ)) = M(R(θ))⁻¹ M(J) M(R(θ))` -/
+theorem mueller_rotation_covariance (J : M22 ℂ) (c s : ℂ) (h : c ^ 2 + s ^ 2 = 1) :
+    muellerOf (((rotTable c (-s)).mul J).mul (rotTable c s)) = muellerOf (rotTable c (-s)) * muellerOf J * muellerOf (rotTable c s) ∧
+    muellerOf (rotTable c (-s)) * muellerOf (rotTable c s) = 1 := by
+  refine ⟨by rw [(mueller_mul _ _).1, (mueller_mul _ _).1], ?_⟩
+  rw [← (mueller_mul _ _).1, gen_rot, gen_rot, rot_neg_mul c s h]; exact (mueller_mul M22.one M22.one).2
+
+/-- coherency form of the Stokes vector of a Jones vector: `U (Ē ⊗ E)` (rows: `s₀ s₁ s₂ s₃`) -/
+noncomputable def stokesC (E : Matrix (Fin 2) (Fin 1) ℂ) : Matrix (Fin 4) (Fin 1 × Fin 1) ℂ :=
+  Umat U0 * ((E.map (starRingEnd ℂ)) ⊗ₖ E)
+
+/-- the Mueller matrix acts on Stokes vectors as the Jones matrix acts on fields: `M(J) · S(E) = S(J E)` for every complex `J`, `E` -/
+theorem mueller_stokes (J : Matrix (Fin 2) (Fin 2) ℂ) (E : Matrix (Fin 2) (Fin 1) ℂ) :
+    muellerC J * stokesC E = stokesC (J * E) := by
+  simp only [muellerCU, stokesC, Matrix.map_mul, Matrix.mul_kronecker_mul]
+  calc Umat U0 * (cj J ⊗ₖ J) * Vmat U0 * (Umat U0 * (E.map (starRingEnd ℂ) ⊗ₖ E))
+      = Umat U0 * (cj J ⊗ₖ J) * ((Vmat U0 * Umat U0) * (E.map (starRingEnd ℂ) ⊗ₖ E)) := by simp only [Matrix.mul_assoc]
+    _ = Umat U0 * (cj J ⊗ₖ J * E.map (starRingEnd ℂ) ⊗ₖ E) := by rw [V_mul_U, Matrix.one_mul, Matrix.mul_assoc]
+    _ = _ := by rfl
+
+/-- the Stokes vector of a fully polarised field lies ON the cone: `s₀ = |E_x|² + |E_y|² ≥ 0` and `s₀² = s₁² + s₂² + s₃²` -/
+theorem stokes_pure (E : Matrix (Fin 2) (Fin 1) ℂ) :
+    stokesC E 0 (0, 0) = ((normSq (E 0 0) + normSq (E 1 0) : ℝ) : ℂ) ∧
+    stokesC E 0 (0, 0) ^ 2 = stokesC E 1 (0, 0) ^ 2 + stokesC E 2 (0, 0) ^ 2 + stokesC E 3 (0, 0) ^ 2 := by
+  have e : ∀ r : Fin 4, stokesC E r (0, 0) =
+      U0 r 0 * (starRingEnd ℂ (E 0 0) * E 0 0) + U0 r 1 * (starRingEnd ℂ (E 0 0) * E 1 0) +
+      U0 r 2 * (starRingEnd ℂ (E 1 0) * E 0 0) + U0 r 3 * (starRingEnd ℂ (E 1 0) * E 1 0) := by
+    intro r
+    simp [stokesC, Matrix.mul_apply, Fintype.sum_prod_type, Fin.sum_univ_two, Umat, Matrix.kroneckerMap_apply]
+    ring
+  refine ⟨?_, ?_⟩
+  · rw [e]; simp [Model.C20.muellerU, ofInt_eq, Complex.normSq_eq_conj_mul_self]
+  · rw [e, e, e, e]; simp [Model.C20.muellerU, ofInt_eq]; ring_nf; simp [Complex.I_sq] <;> ring
+
+/-- depolarisation-free Mueller matrices map the boundary of the Stokes cone into itself: for every complex Jones matrix `J` and
+every fully polarised input `E`, the output Stokes vector `M(J) S(E)` has `s₀ = |(J E)_x|² + |(J E)_y|² ≥ 0` and
+`s₀² = s₁² + s₂² + s₃²`.  PARTIAL with respect to `stokes_cone_full` (the interior of the cone, i.e. partially polarised inputs, follows
+by writing them as non-negative combinations of pure states; that convexity argument is not formalised here). -/
+theorem mueller_preserves_pure_cone (J : Matrix (Fin 2) (Fin 2) ℂ) (E : Matrix (Fin 2) (Fin 1) ℂ) :
+    (muellerC J * stokesC E) 0 (0, 0) = ((normSq ((J * E) 0 0) + normSq ((J * E) 1 0) : ℝ) : ℂ) ∧
+    (muellerC J * stokesC E) 0 (0, 0) ^ 2 = (muellerC J * stokesC E) 1 (0, 0) ^ 2 + (muellerC J * stokesC E) 2 (0, 0) ^ 2 +
+      (muellerC J * stokesC E) 3 (0, 0) ^ 2 := by
+  rw [mueller_stokes]; exact stokes_pure (J * E)
+
+/-- the full clause (NOT proved; kept as a statement): every real Stokes vector in the closed cone `s₀ ≥ √(s₁² + s₂² + s₃²)` is mapped
+into the cone by the Mueller matrix of every Jones matrix -/
+def stokes_cone_full : Prop :=
+  ∀ (J : Matrix (Fin 2) (Fin 2) ℂ) (S : Fin 4 → ℝ), 0 ≤ S 0 → S 1 ^ 2 + S 2 ^ 2 + S 3 ^ 2 ≤ S 0 ^ 2 →
+    let S' := (mueller J).mulVec S
+    0 ≤ S' 0 ∧ S' 1 ^ 2 + S' 2 ^ 2 + S' 3 ^ 2 ≤ S' 0 ^ 2
+
+/-- non-vacuity: a homogeneous propagator (multiplication by a transfer value) satisfies the hypothesis of `adapter_uniform_optic` -/
+example (H : ℂ) : ∀ k x : ℂ, (fun y => H * y) (k * x) = k * (fun y => H * y) x := by intro k x; ring
+end mueller2
 
 /-! ## non-vacuity -/
 section examples
